@@ -79,6 +79,11 @@ EDGE = [
     ("if-else", "int f(int x,int y,int z){ if (x > 0) { x = y + z; } else { x = y * z; } }"),
     ("paper-3.1", "int f(int X1,int X2,int X3){ X1 = X2 + X3; X1 = X1 + X1; }"),
     ("empty-loop-body", "int f(int x){ while(x>0){ } }"),
+    # identifiers the variable scan treats specially (true / false are not variables for `Variables`, yet statements may mention them)
+    ("reserved-names", "int f(int found, int x){ found = true; while (x > 0) { x = x + found; found = false; } }"),
+    ("reserved-names-2", "int f(int a, int b){ a = false; b = a + true; }"),
+    ("numbered-names", "int f(int X1, int X2, int X10, int X11){ X10 = X2 + X1; X2 = X11 * X10; }"),
+    ("unused-params", "int f(int x, int y, int z){ y = y; }"),
     ("no-functions", "int x;"),
 ]
 
